@@ -776,9 +776,11 @@ func genC06(tier string, seed uint64) {
 	rxLists := [][]string{nil, {"ssh"}, {"^ssh$"}, {"ssh|ftp"}, {"^$"}, {"^s"}, {"p$"}, {"^ssh$", "^ftp$"}, {"nomatch"}, {"^(ssh|)$"}, {""}}
 	// the model's matcher covers alternatives of optionally anchored literals; "^(ssh|)$" and "" go to the
 	// implementation + oracle only via the grouping-free equivalents below
-	modelRx := [][]string{nil, {"ssh"}, {"^ssh$"}, {"ssh|ftp"}, {"^$"}, {"^s"}, {"p$"}, {"^ssh$", "^ftp$"}, {"nomatch"}, {"^ssh$|^$"}}
+	modelRx := [][]string{nil, {"ssh"}, {"^ssh$"}, {"ssh|ftp"}, {"^$"}, {"^s"}, {"p$"}, {"^ssh$", "^ftp$"}, {"nomatch"}, {"^ssh$|^$"},
+		// alternation binds weakest: "^ssh|ftp$" is (^ssh)|(ftp$), not ^(ssh|ftp)$
+		{"^ssh|ftp$"}, {"^ssh|ftp"}, {"ssh|ftp$"}, {"^ss|tp$|#"}}
 	_ = rxLists
-	vals := []string{"ssh", "ftp", "sshx", "xssh", "~", "#", "http"}
+	vals := []string{"ssh", "ftp", "sshx", "xssh", "~", "#", "http", "xftp", "ftpx"}
 	var evs []evSpec
 	id := 0
 	for _, c := range vals {
